@@ -1,6 +1,7 @@
 /* objects allocated by the harness: key may be the hasher's own key (same object as self),
  * exactly as in blake3_hasher_reset / blake3_hasher_update_base, or a separate array */
 void harness(void) {
+  VERIF_PROLOGUE();
   blake3_hasher h; /* nondeterministic contents */
   uint32_t other_key[8];
   uint64_t chunk_counter;
